@@ -163,7 +163,7 @@ fn unit_case(cases: &mut Cases, cells: &[Cell], style: u64, strip: bool, gen_cla
     let (cells_out, raw_out) = match out { Ok(x) => x, Err(_) => ("panic".to_string(), "panic".to_string()) };
     let sig: Vec<String> = ops.iter().map(op_sig).collect();
     let nullable = ops.iter().any(|o| matches!(o, CodecOp::Nullable));
-    let class = format!("unit:{}:{}:{}", if sig.is_empty() { format!("id-{}", col.data().first().map(|s| sec_tok(s).split(':').next().unwrap().to_string()).unwrap_or_default()) } else { sig.join(".") },
+    let class = format!("{}unit:{}:{}:{}", if gen_class.starts_with("corpus:") { format!("{}:", gen_class) } else { String::new() }, if sig.is_empty() { format!("id-{}", col.data().first().map(|s| sec_tok(s).split(':').next().unwrap().to_string()).unwrap_or_default()) } else { sig.join(".") },
         if nullable { "nullable" } else { "dense" }, if compressed { "compressed" } else { "plain" });
     let line = format!("{} {} {} {} {}", ops_tok, secs.len(), secs.join(" "), orig0, cells_tok(cells));
     cases.push(&class, &format!("dec {}", line), &cells_out, &format!("gen={} n={} style={} strip={}", gen_class, cells.len(), style, strip));
@@ -281,7 +281,9 @@ fn parse_debug_buf(dbg: &str) -> (String, usize, Option<Vec<u8>>) {
     (kind, len, present)
 }
 
-fn reb_case(cases: &mut Cases, vals: &[DVal], note: &str) {
+fn reb_case(cases: &mut Cases, vals: &[DVal], note: &str) { reb_case_class(cases, vals, "", note) }
+
+fn reb_case_class(cases: &mut Cases, vals: &[DVal], class_prefix: &str, note: &str) {
     let run = catch_unwind(AssertUnwindSafe(|| {
         let mut b = ColumnBuffer::default();
         let mut data: Vec<Cell> = vec![]; // every value pushed, in order (padding for NULL rows as the code pushes it)
@@ -305,7 +307,7 @@ fn reb_case(cases: &mut Cases, vals: &[DVal], note: &str) {
     }));
     let (cells_out, raw_out) = run.unwrap_or(("panic".into(), "panic".into()));
     let kinds: Vec<&str> = vals.iter().map(|v| match v { DVal::I(_, None) => "I", DVal::I(_, Some(_)) => "NI", DVal::F(_, None) => "F", DVal::F(_, Some(_)) => "NF", DVal::S(_, None) => "S", DVal::S(_, Some(_)) => "NS", DVal::Null(_) => "0" }).collect();
-    let class = format!("reb:{}", kinds.join("."));
+    let class = format!("{}reb:{}", if class_prefix.is_empty() { String::new() } else { format!("{}:", class_prefix) }, kinds.join("."));
     let line = format!("{} {}", vals.len(), vals.iter().map(dval_tok).collect::<Vec<_>>().join(" "));
     cases.push(&class, &format!("reb {}", line), &cells_out, note);
     cases.push(&format!("{}:raw", class), &format!("rebraw {}", line), &raw_out, "");
@@ -414,96 +416,226 @@ fn take_obs() -> (usize, String) {
     (k, tok)
 }
 
-fn history_db(cases: &mut Cases, rng: &mut Rng, disk: bool, factor: u64, mem_lz4: bool, profile: usize, nsteps: usize) {
-    let (pname, kinds) = PROFILES[profile];
-    let dir = tempfile::tempdir().unwrap();
-    let mut opts = if disk { disk_options(dir.path()) } else { base_options() };
-    opts.partition_combine_factor = factor;
-    opts.mem_lz4 = mem_lz4;
-    let mut db = Arc::new(LocustDB::new(&opts));
-    let _ = take_obs();
-    let mut hist: Vec<String> = vec![];
-    let mut obs_all: Vec<String> = vec![];
-    let mut rows = 0usize;
-    let mut nbatch = 0usize;
-    let cfg = format!("{}:f{}:{}", if disk { "disk" } else { "mem" }, factor, if mem_lz4 { "lz4" } else { "nolz4" });
-    for stepno in 0..nsteps {
-        // choose a step
-        let choice = if rows == 0 { 0 } else { rng.below(if disk { 10 } else { 7 }) };
-        let (kind, silent): (&str, bool) = match choice { 0..=3 => ("ingest", false), 4..=6 => ("flush", false), 7 => ("evict", false), 8 => ("evict", true), _ => ("restart", false) };
-        let deadline = 6;
+/// one database under test: executes steps, records the history line and compares `SELECT *` after every step
+struct Hist {
+    db: Arc<LocustDB>,
+    opts: vharness::locustdb::Options,
+    dir: tempfile::TempDir,
+    hist: Vec<String>,
+    obs_all: Vec<String>,
+    rows: usize,
+    nbatch: usize,
+    class_prefix: String,
+    dead: bool,
+}
+
+enum Step { Ingest(usize, Vec<(String, Vec<Cell>)>, u64), Flush, Evict { silent: bool }, Restart }
+
+/// generous: the machine may be heavily loaded; a genuine hang (a panic inside the flush pool blocks `force_flush`
+/// forever) still ends the case
+const DEADLINE_S: u64 = 45;
+
+impl Hist {
+    fn open(class_prefix: String, disk: bool, factor: u64, mem_lz4: bool) -> Hist {
+        let dir = tempfile::tempdir().unwrap();
+        let mut opts = if disk { disk_options(dir.path()) } else { base_options() };
+        opts.partition_combine_factor = factor;
+        opts.mem_lz4 = mem_lz4;
+        let db = Arc::new(LocustDB::new(&opts));
+        let _ = take_obs();
+        Hist { db, opts, dir, hist: vec![], obs_all: vec![], rows: 0, nbatch: 0, class_prefix, dead: false }
+    }
+
+    fn step(&mut self, cases: &mut Cases, step: Step, stepno: usize) {
+        if self.dead { return; }
+        let deadline = DEADLINE_S;
         let mut merged = 0usize;
-        let outcome: Result<(), String> = match kind {
-            "ingest" => {
-                let n = *rng.pick(&[1usize, 2, 3, 5, 8, 9, 17, 33, 70, 150]);
-                let mut cols = vec![];
-                let mut tok = vec![];
-                for ck in kinds {
-                    if let Some(cells) = ck.cells(rng, rows, n, nbatch) {
-                        tok.push(format!("{}={}", ck.name(), cells_tok(&cells)));
-                        cols.push((ck.name().to_string(), ColRep::from_cells(&cells, rng.next())));
-                    }
-                }
-                hist.push(format!("I{}@{}", n, tok.join(";")));
-                rows += n; nbatch += 1;
+        let mut silent_ok = false;
+        let (kind, outcome): (&str, Result<(), String>) = match step {
+            Step::Ingest(n, cols, pref) => {
+                let tok: Vec<String> = cols.iter().map(|(name, cells)| format!("{}={}", name, cells_tok(cells))).collect();
+                let mut p = Rng::new(pref);
+                let cols: Vec<(String, ColRep)> = cols.iter().map(|(name, cells)| (name.clone(), ColRep::from_cells(cells, p.next()))).collect();
+                self.hist.push(format!("I{}@{}", n, tok.join(";")));
+                self.rows += n; self.nbatch += 1;
                 let batch = Batch { table: "t".into(), len: n as u64, cols };
-                let db2 = db.clone();
-                match with_deadline(deadline, move || ingest(&db2, &[batch])) { None => Err("hang".into()), Some(Err(_)) => Err("panic".into()), Some(Ok(())) => Ok(()) }
+                let db2 = self.db.clone();
+                ("ingest", match with_deadline(deadline, move || ingest(&db2, &[batch])) { None => Err("hang".into()), Some(Err(_)) => Err("panic".into()), Some(Ok(())) => Ok(()) })
             }
-            "flush" => {
-                let db2 = db.clone();
+            Step::Flush => {
+                let db2 = self.db.clone();
                 let r = match with_deadline(deadline, move || db2.force_flush()) { None => Err("hang".to_string()), Some(Err(_)) => Err("panic".to_string()), Some(Ok(())) => Ok(()) };
                 let (k, tok) = take_obs();
                 merged = k;
-                if k > 0 { obs_all.push(tok); }
-                hist.push(format!("F{}", k));
-                r
+                if k > 0 { self.obs_all.push(tok); }
+                self.hist.push(format!("F{}", k));
+                ("flush", r)
             }
-            "evict" => { hist.push("E".into()); let db2 = db.clone(); match with_deadline(deadline, move || { db2.evict_cache(); }) { None => Err("hang".into()), Some(Err(_)) => Err("panic".into()), Some(Ok(())) => Ok(()) } }
-            _ => {
-                hist.push("R".into());
-                let opts2 = opts.clone();
-                let old = std::mem::replace(&mut db, Arc::new(LocustDB::memory_only()));
-                match with_deadline(deadline, move || { drop(old); std::thread::sleep(std::time::Duration::from_millis(30)); LocustDB::new(&opts2) }) {
+            Step::Evict { silent } => {
+                silent_ok = silent;
+                self.hist.push("E".into());
+                let db2 = self.db.clone();
+                ("evict", match with_deadline(deadline, move || { db2.evict_cache(); }) { None => Err("hang".into()), Some(Err(_)) => Err("panic".into()), Some(Ok(())) => Ok(()) })
+            }
+            Step::Restart => {
+                self.hist.push("R".into());
+                let opts2 = self.opts.clone();
+                let old = std::mem::replace(&mut self.db, Arc::new(LocustDB::memory_only()));
+                ("restart", match with_deadline(deadline, move || { drop(old); std::thread::sleep(std::time::Duration::from_millis(30)); LocustDB::new(&opts2) }) {
                     None => Err("hang".into()), Some(Err(_)) => Err("panic".into()),
-                    Some(Ok(newdb)) => { db = Arc::new(newdb); Ok(()) }
-                }
+                    Some(Ok(newdb)) => { self.db = Arc::new(newdb); Ok(()) }
+                })
             }
         };
-        if silent && outcome.is_ok() { continue; }
-        let out = match &outcome { Ok(()) => select_all(&db, deadline), Err(e) => e.clone() };
-        let class = format!("hist:{}:{}:{}{}", pname, cfg, kind, if kind == "flush" { format!(":merge{}", merged.min(4)) } else { String::new() });
-        let obs = if obs_all.is_empty() { "-".to_string() } else { obs_all.join("|") };
-        cases.push(&class, &format!("hist {} {}", obs, hist.join("|")), &out, &format!("step {} rows {}", stepno, rows));
+        if silent_ok && outcome.is_ok() { return; }
+        let out = match &outcome { Ok(()) => select_all(&self.db, deadline), Err(e) => e.clone() };
+        let class = format!("{}:{}{}", self.class_prefix, kind, if kind == "flush" { format!(":merge{}", merged.min(4)) } else { String::new() });
+        let obs = if self.obs_all.is_empty() { "-".to_string() } else { self.obs_all.join("|") };
+        cases.push(&class, &format!("hist {} {}", obs, self.hist.join("|")), &out, &format!("step {} rows {}", stepno, self.rows));
         if outcome.is_err() || out == "hang" || out == "panic" {
             // the flush thread (or a worker) is gone: abandon this database
-            std::mem::forget(db);
-            std::mem::forget(dir);
-            return;
+            self.dead = true;
         }
+    }
+
+    fn close(self) {
+        if self.dead { std::mem::forget(self.db); std::mem::forget(self.dir); }
     }
 }
 
+fn history_db(cases: &mut Cases, rng: &mut Rng, disk: bool, factor: u64, mem_lz4: bool, profile: usize, nsteps: usize) {
+    let (pname, kinds) = PROFILES[profile];
+    let cfg = format!("{}:f{}:{}", if disk { "disk" } else { "mem" }, factor, if mem_lz4 { "lz4" } else { "nolz4" });
+    let mut h = Hist::open(format!("hist:{}:{}", pname, cfg), disk, factor, mem_lz4);
+    for stepno in 0..nsteps {
+        let choice = if h.rows == 0 { 0 } else { rng.below(if disk { 10 } else { 7 }) };
+        let step = match choice {
+            0..=3 => {
+                let n = *rng.pick(&[1usize, 2, 3, 5, 8, 9, 17, 33, 70, 150]);
+                let mut cols = vec![];
+                for ck in kinds { if let Some(cells) = ck.cells(rng, h.rows, n, h.nbatch) { cols.push((ck.name().to_string(), cells)); } }
+                Step::Ingest(n, cols, rng.next())
+            }
+            4..=6 => Step::Flush,
+            7 => Step::Evict { silent: false },
+            8 => Step::Evict { silent: true },
+            _ => Step::Restart,
+        };
+        h.step(cases, step, stepno);
+        if h.dead { break; }
+    }
+    h.close();
+}
+
+/// Witnesses of the FIXED findings (known_findings.jsonl) as histories: they head every run so that a regression of
+/// one of the fixes is reported deterministically.
+fn corpus_histories(cases: &mut Cases) {
+    let ints = |v: &[Option<i64>]| -> Vec<Cell> { v.iter().map(|x| match x { Some(i) => Cell::Int(*i), None => Cell::Null }).collect() };
+    let ids = |r0: usize, n: usize| -> Vec<Cell> { (r0..r0 + n).map(|i| Cell::Int(i as i64)).collect() };
+    // DESIGN §8 #10 / compaction-decode-nullmap-dropped: 5 flushes of 4-row batches with a nullable narrow int column,
+    // default combine factor: after the compacting flush every NULL used to read 0
+    {
+        let mut h = Hist::open("corpus:compaction-decode-nullmap-dropped:hist".into(), true, 4, false);
+        for b in 0..5 {
+            // n: nullable narrow ints ([PushDataSection(1), Nullable, ToI64(U8)]); off: nullable with offset ([.., Nullable, Add]);
+            // s: nullable dictionary strings ([PushDataSection(3), Nullable, PushDataSection(1), PushDataSection(2), DictLookup])
+            let s: Vec<Cell> = ["b", "", "b", "d", "d", "b", "b", "d"].iter().map(|x| if x.is_empty() { Cell::Null } else { Cell::Str(x.to_string()) }).collect();
+            h.step(cases, Step::Ingest(8, vec![("id".into(), ids(8 * b, 8)),
+                ("n".into(), ints(&[Some(1), None, Some(30), None, None, Some(7), None, None])),
+                ("off".into(), ints(&[Some(-1_000_001), None, Some(-1_000_030), None, None, Some(-1_000_007), Some(-1_000_100), None])),
+                ("s".into(), s)], 7), 2 * b);
+            h.step(cases, Step::Flush, 2 * b + 1);
+        }
+        h.step(cases, Step::Restart, 10);
+        h.close();
+    }
+    // compaction-builder-nullmap-dropped: monotone nullable column (codec [Delta, PushDataSection(1), Nullable]): the free
+    // decode returned the null map, `push_present` dropped it
+    {
+        let mut h = Hist::open("corpus:compaction-builder-nullmap-dropped:hist".into(), true, 4, false);
+        for b in 0..5 {
+            let c0: Vec<Option<i64>> = (1..=12).map(|i| if i == 10 { None } else { Some(i + 12 * b as i64) }).collect();
+            h.step(cases, Step::Ingest(12, vec![("id".into(), ids(12 * b, 12)), ("c0".into(), ints(&c0))], 3), 2 * b);
+            h.step(cases, Step::Flush, 2 * b + 1);
+        }
+        h.close();
+    }
+    // DESIGN §8 #11 / compaction-hexpacked-todo: a hex-packed string column, every flush compacts: force_flush used to hang
+    {
+        let mut h = Hist::open("corpus:compaction-hexpacked-todo:hist".into(), true, 0, true);
+        for b in 0..3 {
+            let hexs: Vec<Cell> = (0..8).map(|i| Cell::Str(format!("{:016x}", 0x1234_5678_9abc_def0u64.wrapping_mul(i + 1 + 8 * b as u64)))).collect();
+            let mut hexn = hexs.clone(); hexn[3] = Cell::Null;
+            h.step(cases, Step::Ingest(8, vec![("id".into(), ids(8 * b, 8)), ("hex".into(), hexs), ("hexn".into(), hexn)], 1), 2 * b);
+            h.step(cases, Step::Flush, 2 * b + 1);
+        }
+        h.step(cases, Step::Evict { silent: false }, 6);
+        h.close();
+    }
+    // compaction-decode-lz4-narrow-type / compaction-decode-unpack-section0: lz4-compressed u16 ints and lz4-compressed packed
+    // strings kept compressed in memory (mem_lz4), every flush compacts
+    {
+        let mut h = Hist::open("corpus:compaction-decode-lz4:hist".into(), true, 0, true);
+        for b in 0..2 {
+            let runs: Vec<Cell> = (0..130).map(|i| Cell::Int(if (i / 40) % 2 == 0 { 219 } else { 5000 })).collect();
+            let strs: Vec<Cell> = (0..130).map(|i| Cell::Str(format!("{}-{}", "q".repeat(1 + i % 40), i + 130 * b))).collect();
+            let mut strn = strs.clone(); strn[7] = Cell::Null;
+            h.step(cases, Step::Ingest(130, vec![("id".into(), ids(130 * b, 130)), ("runs".into(), runs), ("strs".into(), strs), ("strn".into(), strn)], 1), 2 * b);
+            h.step(cases, Step::Flush, 2 * b + 1);
+        }
+        h.close();
+    }
+}
+
+/// Witnesses of the fixed findings as single column images (unit stream).
+fn corpus_units(cases: &mut Cases) {
+    // compaction-decode-nullmap-dropped: [PushDataSection(1), Nullable, ToI64(U8)] / [.., Add] / nullable dictionary
+    unit_case(cases, &[Cell::Int(5), Cell::Null, Cell::Int(7)], 0, false, "corpus:compaction-decode-nullmap-dropped");
+    // (a NULL slot stores 0, so negative values are needed for an offset codec)
+    unit_case(cases, &[Cell::Int(-1003), Cell::Null, Cell::Int(-1001), Cell::Int(-1090)], 0, false, "corpus:compaction-decode-nullmap-dropped");
+    unit_case(cases, &[Cell::Int(-7), Cell::Null, Cell::Int(-1), Cell::Int(-90)], 0, false, "corpus:compaction-decode-nullmap-dropped");
+    let dict: Vec<Cell> = ["b", "", "b", "d", "d", "b", "b", "d"].iter().map(|x| if x.is_empty() { Cell::Null } else { Cell::Str(x.to_string()) }).collect();
+    unit_case(cases, &dict, 0, false, "corpus:compaction-decode-nullmap-dropped");
+    // compaction-hexpacked-todo: 8 distinct 16-char lower-case hex strings
+    let hexs: Vec<Cell> = (0..8u64).map(|i| Cell::Str(format!("{:016x}", 0x0123_4567_89ab_cdefu64.wrapping_mul(i + 3)))).collect();
+    unit_case(cases, &hexs, 0, false, "corpus:compaction-hexpacked-todo");
+    let mut hexn = hexs.clone(); hexn[2] = Cell::Null;
+    unit_case(cases, &hexn, 0, false, "corpus:compaction-hexpacked-todo");
+    // compaction-decode-lz4-narrow-type: 130 rows alternating 219 / 5000 in runs of 40 -> [LZ4(U16, 130), ToI64(U16)]
+    let runs: Vec<Cell> = (0..130).map(|i| Cell::Int(if (i / 40) % 2 == 0 { 219 } else { 5000 })).collect();
+    unit_case(cases, &runs, 0, false, "corpus:compaction-decode-lz4-narrow-type");
+    let runs32: Vec<Cell> = (0..130).map(|i| Cell::Int(if (i / 40) % 2 == 0 { 219 } else { 500_000 })).collect();
+    unit_case(cases, &runs32, 0, false, "corpus:compaction-decode-lz4-narrow-type");
+    // compaction-decode-unpack-section0: high-cardinality compressible strings -> [LZ4(U8, n), UnpackStrings]
+    let strs: Vec<Cell> = (0..130).map(|i| Cell::Str(format!("{}-{}", "q".repeat(1 + i % 40), i))).collect();
+    unit_case(cases, &strs, 0, false, "corpus:compaction-decode-unpack-section0");
+    let mut strn = strs.clone(); strn[9] = Cell::Null;
+    unit_case(cases, &strn, 0, false, "corpus:compaction-decode-unpack-section0");
+    // compaction-builder-nullmap-dropped: dense value, then a nullable value while the buffer has no bitmap
+    reb_case_class(cases, &[DVal::I(vec![1, 2, 3], None), DVal::I(vec![0, 5], Some(vec![2])), DVal::Null(2), DVal::I(vec![9], Some(vec![1]))], "corpus:compaction-builder-nullmap-dropped", "");
+    reb_case_class(cases, &[DVal::S(vec!["".into(), "x".into()], Some(vec![2]))], "corpus:compaction-builder-nullmap-dropped", "");
+}
+
 fn history_stream(cases: &mut Cases, rng: &mut Rng, thorough: bool) {
-    vharness::locustdb::verif::set_sync_callback(Some(Box::new(|label: &str| {
-        if label.starts_with("compact:input:") { OBS.lock().unwrap().push(label.to_string()); }
-    })));
     let rounds = if thorough { 6 } else { 1 };
     for round in 0..rounds {
         for profile in 0..PROFILES.len() {
             for (i, factor) in [0u64, 1, 4, 999].iter().enumerate() {
                 // three of four databases have a storage directory (the property's domain); the fourth is memory-only
                 // (steps ingest / flush only)
-                let disk = (profile + i + round) % 4 != 3 || PROFILES[profile].0 == "hex";
+                let disk = (profile + i + round) % 4 != 3;
                 let mem_lz4 = (profile + i + round) % 2 == 0;
-                // a database with hex-packed columns hangs at its first compaction (deadline): keep those few
-                if PROFILES[profile].0 == "hex" && (*factor == 4 || (*factor == 999 && !thorough)) { continue; }
-                let nsteps = if PROFILES[profile].0 == "hex" { 6 } else if thorough { 16 } else { 11 };
+                let nsteps = if thorough { 16 } else { 11 };
                 history_db(cases, rng, disk, *factor, mem_lz4, profile, nsteps);
             }
         }
     }
-    vharness::locustdb::verif::set_sync_callback(None);
+}
+
+fn install_obs() {
+    vharness::locustdb::verif::set_sync_callback(Some(Box::new(|label: &str| {
+        if label.starts_with("compact:input:") { OBS.lock().unwrap().push(label.to_string()); }
+    })));
 }
 
 fn main() {
@@ -512,9 +644,14 @@ fn main() {
     let mut rng = Rng::new(args.seed);
     let mut cases = Cases::create(&args.out);
     let only = args.rest.first().cloned().unwrap_or_default();
+    install_obs();
+    // past failures first
+    if only.is_empty() || only == "corpus" || only == "unit" { corpus_units(&mut cases); }
+    if only.is_empty() || only == "corpus" || only == "hist" { corpus_histories(&mut cases); }
     if only.is_empty() || only == "unit" { unit_stream(&mut cases, &mut rng, args.thorough()); }
     if only.is_empty() || only == "reb" { reb_stream(&mut cases, &mut rng, args.thorough()); }
     if only.is_empty() || only == "hist" { history_stream(&mut cases, &mut rng, args.thorough()); }
+    vharness::locustdb::verif::set_sync_callback(None);
     cases.finish();
     // leaked databases may still have threads blocked in a dead flush: leave without joining them
     std::process::exit(0);
